@@ -5,7 +5,7 @@ from __future__ import annotations
 import ast
 from typing import Dict, List, Optional, Set
 
-from .core import AnalysisError, Ctx, assigned_names, dotted, names_in, norm, stmts_local, walk_local
+from .core import presence_test,  AnalysisError, Ctx, assigned_names, dotted, names_in, norm, stmts_local, walk_local
 from .effects import Effects
 from .fold import (LAST, MUTATORS, NONE, PAIRS, RESV, Prov, Roles, bind_roles,
                    resolver_call_roles)
@@ -200,8 +200,8 @@ class FoldRules:
                     reach += 1
                     if not key_truthy:
                         guarded_all = False
-                elif ev[0] == "cond" and isinstance(ev[1], ast.Name) and ev[1].id == r.KEY:
-                    key_truthy = bool(ev[2])
+                elif ev[0] == "cond" and presence_test(ev[1], ev[2]) is not None and presence_test(ev[1], ev[2])[0] == r.KEY:
+                    key_truthy = presence_test(ev[1], ev[2])[1]  # `if resolution:` or `if resolution is not None:`
                 elif ev[0] == "stmt" and r.KEY in assigned_names(ev[1]):
                     key_truthy = False
         ctx.ob("O2", f"{self.q}/append-guard", guarded_all and reach > 0,
